@@ -836,6 +836,10 @@ declarations:
   - decl: Box()
   - decl: int *count()
   - decl: void put(T value)
+  - block: true
+    declarations:
+    - decl: void tune(T value, int level)
+    - decl: int level() const
 """
 PLACEMENTS = [
     # (name, container placement, equivalent placement on the contained declarations)
@@ -847,14 +851,20 @@ PLACEMENTS = [
      ("class", "options", {"return_scalar_pointer": "scalar"})),
     ("instantiation options debug", ("inst", "options", {"debug": True}), ("class-functions", "options", {"debug": True})),
     ("class options F_force_wrapper", ("class", "options", {"F_force_wrapper": True}), ("class-functions", "options", {"F_force_wrapper": True})),
+    # a block inside the class template: what it sets must reach its functions in every instantiation
+    ("block in a class template: options F_force_wrapper", ("tblock", "options", {"F_force_wrapper": True}), ("tblock-functions", "options", {"F_force_wrapper": True})),
+    ("block in a class template: format function_suffix", ("tblock", "format", {"function_suffix": "_blk"}), ("tblock-functions", "format", {"function_suffix": "_blk"})),
+    ("block in a class template: options wrap_fortran", ("tblock", "options", {"wrap_fortran": False}), ("tblock-functions", "options", {"wrap_fortran": False})),
 ]
 
 
 def place(d, where, field, values):
     ns = d["declarations"][1]
     cls = d["declarations"][2]
-    targets = {"ns": [ns], "ns-functions": ns["declarations"], "class": [cls], "class-functions": cls["declarations"],
-               "inst": [cls["cxx_template"][0]]}[where]
+    blk = [t for t in cls["declarations"] if "block" in t][0]
+    targets = {"ns": [ns], "ns-functions": ns["declarations"], "class": [cls],
+               "class-functions": [t for t in cls["declarations"] if "block" not in t] + blk["declarations"],
+               "inst": [cls["cxx_template"][0]], "tblock": [blk], "tblock-functions": blk["declarations"]}[where]
     for t in targets:
         t.setdefault(field, {}).update(values)
 
